@@ -10,6 +10,8 @@ lines (brute-force mode).  Every solve is served by the enumerating back end
 with a different adversarial choice, so a re-solve is free to return another
 optimal matching.
 """
+import os
+
 from hypothesis import strategies as st
 
 from .. import refbackend, refmodel, restext, solverio, strategies
@@ -55,10 +57,20 @@ def _cases(draw, tier):
     ops = ['solve']
     for _ in range(n_ops - 1):
         ops.append(draw(st.sampled_from(['solve', 'results', 'short', 'long', 'debug',
-                                         'results', 'short', 'long', 'debug', 'other'])))
+                                         'results', 'short', 'long', 'debug', 'other',
+                                         'solve', 'results', 'short', 'long', 'debug',
+                                         'results', 'short', 'long', 'debug', 'touch_file'])))
+    # solve(timeLimit=...) of the successive solves (cyclic) and the steps of the owned clock:
+    # a limit may be met by one solve and long exceeded when a later solve runs without one
+    limits = draw(st.lists(st.sampled_from([None, None, None, 5, 60, 3600]), min_size=1,
+                           max_size=4))
+    steps = draw(st.lists(st.sampled_from([1, 2, 400, 3000, 30000]), min_size=1, max_size=3))
+    touch = draw(st.sampled_from(['sibling', 'sibling', 'delete', 'garbage']))
+    sib = draw(strategies.siblings(inst)) if touch == 'sibling' else None
     other = draw(strategies.option_sets(inst, max_crit=2, stab=False if bf else None))
     return {'inst': inst, 'opts': opts, 'bf': bf, 'ops': ops, 'salt': salt, 'mode': mode,
             'other_opts': other, 'threads': threads, 'odd_targets': odd_targets,
+            'limits': limits, 'steps': steps, 'touch': touch, 'touch_inst': sib,
             'choices': draw(strategies.choice_lists)}
 
 
@@ -84,6 +96,12 @@ def _summary_lp(text, o, criteria):
 
 
 def run_case(case):
+    from .. import faults
+    with faults.owned_clock(faults.Clock(case.get('steps') or [1])):
+        return _run_case(case)
+
+
+def _run_case(case):
     inst, opts, bf = case['inst'], case['opts'], case['bf']
     text = refmodel.render(inst)
     path = solverio.write_instance(text)
@@ -93,7 +111,9 @@ def run_case(case):
     criteria = strategies.ordered_criteria(opts)
     fns = {'results': solver.get_results, 'short': solver.get_results_short,
            'long': solver.get_results_long, 'debug': solver.get_debug}
-    state = {'memo': {}, 'epoch': 0, 'first': None, 'seen': [], 'interleaved': False}
+    state = {'memo': {}, 'epoch': 0, 'first': None, 'seen': [], 'interleaved': False,
+             'comparable': True, 'labels': set()}
+    limits = case.get('limits') or [None]
 
     def call_getter(op, where):
         try:
@@ -127,6 +147,12 @@ def run_case(case):
         if state['epoch'] == 0:
             return
         res = call_getter('results', where + ' [summary of solve %d]' % state['epoch'])
+        if not state['comparable']:
+            # this solve was given a time limit and the run (counted from the construction of
+            # the object, as the solver does) exceeded it: it is a cut-short run (C14), not a
+            # reproduction of solve 1
+            state['labels'].add('epoch_over_its_limit')
+            return
         if bf:
             cur = restext.parse_bf(res)
             cur = (cur['infeasible'], cur['values'])
@@ -141,6 +167,21 @@ def run_case(case):
 
     for step, op in enumerate(case['ops']):
         where = 'step %d (%s) of history %r' % (step + 1, op, case['ops'])
+        if op == 'touch_file':
+            # the instance file changes on disk after the object was constructed: the object
+            # works on the instance it read
+            kind = case.get('touch')
+            if kind == 'delete':
+                if os.path.exists(path):
+                    os.unlink(path)
+            elif kind == 'garbage':
+                with open(path, 'w') as f:
+                    f.write('not an instance\n')
+            else:
+                with open(path, 'w') as f:
+                    f.write(refmodel.render(case['touch_inst']))
+            state['labels'].add('file_' + str(kind))
+            continue
         if op == 'other':
             # another Solver object on the same file is created, solved and read; the object
             # under test must not notice
@@ -161,13 +202,25 @@ def run_case(case):
             state['seen'] = []
             be = refbackend.Backend(case.get('mode', 'eb'), case['choices'],
                                     salt=(case['salt'] + 7 * state['epoch']) % 60)
+            T = limits[(state['epoch'] - 1) % len(limits)]
             try:
                 with be:
-                    call_repo('solve()', solver.solve, msg=False, timeLimit=None,
+                    call_repo('solve()', solver.solve, msg=False, timeLimit=T,
                               threads=case.get('threads'), write=False)
             except Violation as v:
                 raise Violation('solve_raises' if state['epoch'] > 1 else 'first_solve_raises',
                                 '%s: %s' % (where, v.detail), exc=v.exc)
+            state['comparable'] = True
+            if T is not None:
+                state['labels'].add('solve_with_limit')
+                try:
+                    m = solver.model
+                    total = (m.time_after_solve - m.time_start).total_seconds()
+                    state['comparable'] = total <= T
+                except Exception:
+                    state['comparable'] = False
+            elif state['epoch'] > 1 and any(x is not None for x in limits):
+                state['labels'].add('solve_without_limit_after_limited')
             continue
         call_getter(op, where)
     close_epoch('end of history %r' % (case['ops'],))
@@ -176,6 +229,7 @@ def run_case(case):
         'bf' if bf else 'lp', 'mode=' + case.get('mode', 'eb'),
         'solves=%d' % min(nsolves, 4), 'len=%d' % len(case['ops']),
         'threads=%r' % (case.get('threads'),)]
+    labels += sorted(state['labels'])
     if case.get('odd_targets'):
         labels.append('targets_outside_quotas')
     if state['first'] is not None and not bf and state['first'].get('status') != 'Optimal':
